@@ -6,6 +6,7 @@ Open Scope Z_scope.
 
 Section Sched.
 Variable mx : Z.
+Variable kp : Z.
 
 Lemma G_set_live_None x w k new :
   G mx x None -> get_worker x w = Some k -> live k = true -> terminal new = false ->
@@ -26,6 +27,39 @@ Proof. apply G_frame; reflexivity. Qed.
 Lemma G_set_cq x q h : G mx x h -> G mx (set_cq x q) h.
 Proof. apply G_frame; reflexivity. Qed.
 
+(** * the potential of a pass: [psi] when there is no keep-alive; otherwise [psi] weighs more than
+    all the idle rounds ([ipot]) that may follow a working round *)
+Definition ibound : Z := mx * kcap kp + mx.
+Definition pot (x : pw) (d : sdata) : Z := if kp <=? 0 then psi x d else (ibound + 1) * psi x d + ipot mx kp x.
+
+Lemma ipot_bounds tnt x d h t : J mx kp tnt x d h t -> 0 <= ipot mx kp x <= ibound.
+Proof.
+  intro HJ. pose proof (j_p _ _ _ _ _ _ _ _ HJ) as HP. destruct (jp_keep _ _ _ _ HP) as (_ & _ & Hcr & Hpf).
+  pose proof (jp_mx _ _ _ _ HP) as Hmx.
+  pose proof (phimax_nonneg kp (pw_clock x) (pw_workers x)) as H1. pose proof (phimax_bound kp (pw_clock x) (pw_workers x) Hcr) as H2.
+  unfold ipot, ibound, phix, pfx, pfc. nia.
+Qed.
+
+Lemma ibound_nonneg tnt x d h t : J mx kp tnt x d h t -> 0 <= ibound.
+Proof. intro HJ. pose proof (ipot_bounds tnt x d h t HJ). lia. Qed.
+
+Lemma pot_dec a a' i i' :
+  0 <= i -> i' <= ibound -> 0 <= ibound ->
+  (a' + 1 <= a \/ (0 < kp /\ a' <= a /\ i' + 1 <= i)) ->
+  (if kp <=? 0 then a' else (ibound + 1) * a' + i') + 1 <= (if kp <=? 0 then a else (ibound + 1) * a + i).
+Proof. intros H1 H2 H3 H. destruct (kp <=? 0) eqn:E; [lia|]. nia. Qed.
+
+Lemma pot_le a a' i i' :
+  0 <= i -> i' <= ibound -> 0 <= ibound ->
+  a' <= a -> (a' = a -> i' = i) ->
+  (if kp <=? 0 then a' else (ibound + 1) * a' + i') <= (if kp <=? 0 then a else (ibound + 1) * a + i).
+Proof.
+  intros H1 H2 H3 H4 H5. destruct (kp <=? 0) eqn:E; [lia|]. destruct (Z.eq_dec a' a) as [->|Hne]; [rewrite (H5 eq_refl); lia|]. nia.
+Qed.
+
+Lemma ipot_push x w : ipot mx kp (k_push 0 x w) = ipot mx kp x.
+Proof. reflexivity. Qed.
+
 (** * check_suspend *)
 Lemma k_change_ready x i k : get_worker x i = Some k ->
   k_change x i Ready = (upd_worker x i (with_st k Ready), [EL 0 i (CbChanged Ready) (k_st k)]).
@@ -39,45 +73,46 @@ Proof.
 Qed.
 
 Lemma csusp_J : forall fuel tnt x d acc t,
-  J mx tnt x d None t -> quiet_off t -> G mx x None -> pw_ts x = [] ->
+  J mx kp tnt x d None t -> quiet_off t -> G mx x None -> pw_ts x = [] ->
   exists x' d' evs, csusp fuel x d acc = COk pw x' d' (acc ++ evs) /\
-    J mx tnt x' d' None (fold_left pev evs t) /\ G mx x' None /\ pw_ts x' = [] /\ pw_clock x' = pw_clock x /\
+    J mx kp tnt x' d' None (fold_left pev evs t) /\ G mx x' None /\ pw_ts x' = [] /\ pw_clock x' = pw_clock x /\
     ((length (sd_suspend d) < fuel)%nat -> forall ts w, In (ts, w) (sd_suspend d') -> pw_clock x < ts) /\
-    psi x' d' = psi x d.
+    psi x' d' = psi x d /\ ipot mx kp x' = ipot mx kp x.
 Proof.
   induction fuel as [|f IH]; intros tnt x d acc t HJ Hq HG Hts.
-  - exists x, d, []. cbn [csusp check_suspend fold_left]. rewrite app_nil_r. split; [reflexivity|]. split; [exact HJ|]. split; [exact HG|]. split; [exact Hts|]. split; [reflexivity|]. split; [|reflexivity]. intro H. exfalso. lia.
+  - exists x, d, []. cbn [csusp check_suspend fold_left]. rewrite app_nil_r. split; [reflexivity|]. split; [exact HJ|]. split; [exact HG|]. split; [exact Hts|]. split; [reflexivity|]. split; [|split; reflexivity]. intro H. exfalso. lia.
   - rewrite csusp_S. destruct (heap_min (sd_suspend d)) as [[ts i]|] eqn:Emin.
     2:{ exists x, d, []. rewrite app_nil_r. split; [reflexivity|]. cbn [fold_left].
-        split; [exact HJ|]. split; [exact HG|]. split; [exact Hts|]. split; [reflexivity|]. split; [|reflexivity].
+        split; [exact HJ|]. split; [exact HG|]. split; [exact Hts|]. split; [reflexivity|]. split; [|split; reflexivity].
         intros _ ts w Hin. apply heap_min_None in Emin. rewrite Emin in Hin. destruct Hin. }
     destruct (pw_clock x <? ts) eqn:Ecl.
     { exists x, d, []. rewrite app_nil_r. split; [reflexivity|]. cbn [fold_left].
-      split; [exact HJ|]. split; [exact HG|]. split; [exact Hts|]. split; [reflexivity|]. split; [|reflexivity].
+      split; [exact HJ|]. split; [exact HG|]. split; [exact Hts|]. split; [reflexivity|]. split; [|split; reflexivity].
       intros _ ts' w Hin. pose proof (heap_min_le _ _ _ Emin _ _ Hin). lia. }
     pose proof (heap_min_In _ _ Emin) as Hin.
-    destruct (J_open_susp mx tnt x d t ts i HJ Hin) as (k & y & Hk & Est & Hl & Hp & HJ1).
+    destruct (J_open_susp mx kp tnt x d t ts i HJ Hin) as (k & y & Hk & Est & Hl & Hp & HJ1).
     unfold co_ready, k_state. rewrite Hk. cbn [option_map]. rewrite Est. cbn [tr_ready].
     assert (ts <=? pw_clock x = true) as -> by lia.
     rewrite (k_change_ready x i k Hk). rewrite Est.
     set (x1 := upd_worker x i (with_st k Ready)). set (e := EL 0 i (CbChanged Ready) (Suspend y ts)).
-    assert (J mx tnt x1 (d_rm_susp d (ts, i)) (Some i) (pev t e)) as HJ2.
+    assert (J mx kp tnt x1 (d_rm_susp d (ts, i)) (Some i) (pev t e)) as HJ2.
     { unfold x1, e. rewrite <- Est. apply J_set_live; [exact HJ1 | exact Hk | exact Hl | reflexivity]. }
     assert (get_worker x1 i = Some (with_st k Ready)) as Hk1.
     { unfold x1. apply get_worker_upd_worker_same. eapply get_worker_lt, Hk. }
-    assert (J mx tnt (k_push 0 x1 i) (d_rm_susp d (ts, i)) None (pev t e)) as HJ3.
+    assert (J mx kp tnt (k_push 0 x1 i) (d_rm_susp d (ts, i)) None (pev t e)) as HJ3.
     { eapply J_close_push; [exact HJ2 | exact Hk1 | reflexivity | eapply parked_facts_ready; eassumption | left; reflexivity]. }
     destruct (IH tnt (k_push 0 x1 i) (d_rm_susp d (ts, i)) (acc ++ [e]) (pev t e) HJ3)
-      as (x' & d' & evs & Ec & HJ' & HG' & Hts' & Ecl' & Hfut & Hpsi).
+      as (x' & d' & evs & Ec & HJ' & HG' & Hts' & Ecl' & Hfut & Hpsi & Hipot).
     + unfold quiet_off. rewrite po_pools_pev. exact Hq.
     + apply G_push. unfold x1. apply G_set_live_None; [exact HG | exact Hk | exact Hl | reflexivity].
     + exact Hts.
     + exists x', d', (e :: evs). rewrite Ec. split; [rewrite <- app_assoc; reflexivity|]. cbn [fold_left].
-      split; [exact HJ'|]. split; [exact HG'|]. split; [exact Hts'|]. split; [exact Ecl'|]. split.
+      split; [exact HJ'|]. split; [exact HG'|]. split; [exact Hts'|]. split; [exact Ecl'|]. split; [|split].
       * intros Hlen. apply Hfut. unfold d_rm_susp. cbn [sd_suspend]. rewrite (heap_remove_length _ _ Hin) in Hlen. lia.
       * rewrite Hpsi. unfold psi, k_push, d_rm_susp. cbn [sd_sys_suspend]. autorewrite with pw.
         change (rho (set_cq x1 _)) with (rho x1). unfold x1.
         rewrite (rho_upd_worker_same x i k (with_st k Ready) Hk); [reflexivity | unfold live; cbn [with_st k_st]; rewrite Est; reflexivity | reflexivity].
+      * rewrite Hipot, ipot_push. unfold x1. apply ipot_set_live; [exact Hk | exact Hl | reflexivity].
 Qed.
 
 (** * check_sys *)
@@ -90,80 +125,84 @@ Proof.
 Qed.
 
 Lemma csys_J : forall fuel tnt x d acc t,
-  J mx tnt x d None t -> quiet_off t -> G mx x None -> pw_ts x = [] ->
+  J mx kp tnt x d None t -> quiet_off t -> G mx x None -> pw_ts x = [] ->
   exists x' d' evs, csys fuel x d acc = COk pw x' d' (acc ++ evs) /\
-    J mx tnt x' d' None (fold_left pev evs t) /\ G mx x' None /\ pw_ts x' = [] /\ pw_clock x' = pw_clock x /\
+    J mx kp tnt x' d' None (fold_left pev evs t) /\ G mx x' None /\ pw_ts x' = [] /\ pw_clock x' = pw_clock x /\
     sd_suspend d' = sd_suspend d /\
     ((length (sd_sys_suspend d) < fuel)%nat -> forall ts w, In (ts, w) (sd_sys_suspend d') -> pw_clock x < ts) /\
-    psi x' d' <= psi x d.
+    psi x' d' <= psi x d /\ (psi x' d' = psi x d -> ipot mx kp x' = ipot mx kp x).
 Proof.
   induction fuel as [|f IH]; intros tnt x d acc t HJ Hq HG Hts.
   - exists x, d, []. cbn [csys check_sys fold_left]. rewrite app_nil_r. split; [reflexivity|].
-    split; [exact HJ|]. split; [exact HG|]. split; [exact Hts|]. split; [reflexivity|]. split; [reflexivity|]. split; [|lia]. intro H. exfalso. lia.
+    split; [exact HJ|]. split; [exact HG|]. split; [exact Hts|]. split; [reflexivity|]. split; [reflexivity|]. split; [|split; [lia | reflexivity]]. intro H. exfalso. lia.
   - rewrite csys_S. destruct (heap_min (sd_sys_suspend d)) as [[ts i]|] eqn:Emin.
     2:{ exists x, d, []. rewrite app_nil_r. split; [reflexivity|]. cbn [fold_left].
-        split; [exact HJ|]. split; [exact HG|]. split; [exact Hts|]. split; [reflexivity|]. split; [reflexivity|]. split; [|lia].
+        split; [exact HJ|]. split; [exact HG|]. split; [exact Hts|]. split; [reflexivity|]. split; [reflexivity|]. split; [|split; [lia | reflexivity]].
         intros _ ts w Hin. apply heap_min_None in Emin. rewrite Emin in Hin. destruct Hin. }
     destruct (pw_clock x <? ts) eqn:Ecl.
     { exists x, d, []. rewrite app_nil_r. split; [reflexivity|]. cbn [fold_left].
-      split; [exact HJ|]. split; [exact HG|]. split; [exact Hts|]. split; [reflexivity|]. split; [reflexivity|]. split; [|lia].
+      split; [exact HJ|]. split; [exact HG|]. split; [exact Hts|]. split; [reflexivity|]. split; [reflexivity|]. split; [|split; [lia | reflexivity]].
       intros _ ts' w Hin. pose proof (heap_min_le _ _ _ Emin _ _ Hin). lia. }
     pose proof (heap_min_In _ _ Emin) as Hin.
-    destruct (J_open_sys mx tnt x d t ts i HJ Hin) as (k & y & n & Hk & Est & Hl & Hp & Hmap & HJ1).
+    destruct (J_open_sys mx kp tnt x d t ts i HJ Hin) as (k & y & n & Hk & Est & Hl & Hp & Hmap & HJ1).
     assert (mem_nat i (sd_syscall d) = true) as -> by (apply mem_nat_In, Hmap).
     unfold k_state. rewrite Hk. cbn [option_map]. rewrite Est.
-    destruct (J_k_change mx tnt x (d_rm_sys d (ts, i)) i t k (Syscall y n STimeout) HJ1 Hq Hk Hl ltac:(discriminate))
+    destruct (J_k_change mx kp tnt x (d_rm_sys d (ts, i)) i t k (Syscall y n STimeout) HJ1 Hq Hk Hl ltac:(discriminate))
       as (x1 & Ekc & HJ2 & Hm2 & Hk2 & HG2a & _ & _).
-    destruct (k_change_rho x i k (Syscall y n STimeout) x1 _ (jp_pools _ _ _ (j_p _ _ _ _ _ _ _ HJ1)) (jp_cur _ _ _ (j_p _ _ _ _ _ _ _ HJ1)) Hk Hl Ekc) as [Hr2 _].
+    destruct (k_change_rho x i k (Syscall y n STimeout) x1 _ (jp_pools _ _ _ _ (j_p _ _ _ _ _ _ _ _ HJ1)) (jp_cur _ _ _ _ (j_p _ _ _ _ _ _ _ _ HJ1)) Hk Hl Ekc) as [Hr2 _].
     cbn [terminal creator_grows] in Hr2.
     rewrite Ekc. rewrite Est in HJ2 |- *. set (e := EL 0 i (CbChanged (Syscall y n STimeout)) (Syscall y n (SSuspend ts))) in *.
     destruct Hm2 as [M1 M2 M3 M4 M5 M6].
-    assert (J mx tnt (k_push 0 x1 i) (d_rm_sys d (ts, i)) None (pev t e)) as HJ3.
+    assert (J mx kp tnt (k_push 0 x1 i) (d_rm_sys d (ts, i)) None (pev t e)) as HJ3.
     { eapply J_close_push; [exact HJ2 | exact Hk2 | reflexivity | eapply parked_facts_timeout; eassumption | right; right; exists y, n; reflexivity]. }
     destruct (IH tnt (k_push 0 x1 i) (d_rm_sys d (ts, i)) (acc ++ [e]) (pev t e) HJ3)
-      as (x' & d' & evs & Ec & HJ' & HG' & Hts' & Ecl' & Esu & Hfut & Hpsi).
+      as (x' & d' & evs & Ec & HJ' & HG' & Hts' & Ecl' & Esu & Hfut & Hpsi & _).
     + unfold quiet_off. rewrite po_pools_pev. exact Hq.
     + apply G_push, HG2a. reflexivity.
     + unfold k_push. autorewrite with pw. congruence.
-    + exists x', d', (e :: evs). rewrite Ec. split; [rewrite <- app_assoc; reflexivity|]. cbn [fold_left].
+    + assert (psi (k_push 0 x1 i) (d_rm_sys d (ts, i)) + 1 <= psi x d) as Hstep.
+      { unfold psi, k_push, d_rm_sys. cbn [sd_sys_suspend]. autorewrite with pw.
+        change (rho (set_cq x1 _)) with (rho x1). rewrite M1. pose proof (heap_remove_length _ _ Hin) as Hlen. lia. }
+      exists x', d', (e :: evs). rewrite Ec. split; [rewrite <- app_assoc; reflexivity|]. cbn [fold_left].
       split; [exact HJ'|]. split; [exact HG'|]. split; [exact Hts'|].
-      split; [rewrite Ecl'; unfold k_push; autorewrite with pw; exact M4|]. split; [exact Esu|]. split.
+      split; [rewrite Ecl'; unfold k_push; autorewrite with pw; exact M4|]. split; [exact Esu|]. split; [|split].
       * intros Hlen ts' w' Hin'. rewrite <- M4. apply (Hfut ltac:(unfold d_rm_sys; cbn [sd_sys_suspend]; rewrite (heap_remove_length _ _ Hin) in Hlen; lia) ts' w').
         exact Hin'.
-      * etransitivity; [exact Hpsi|]. unfold psi, k_push, d_rm_sys. cbn [sd_sys_suspend]. autorewrite with pw.
-        change (rho (set_cq x1 _)) with (rho x1). rewrite M1. pose proof (heap_remove_length _ _ Hin) as Hlen. lia.
+      * lia.
+      * intro E. exfalso. lia.
 Qed.
 
 (** * check_ready *)
 Lemma cready_J tnt x d acc t :
-  J mx tnt x d None t -> quiet_off t -> G mx x None -> pw_ts x = [] ->
+  J mx kp tnt x d None t -> quiet_off t -> G mx x None -> pw_ts x = [] ->
   exists x' d' evs, cready x d acc = COk pw x' d' (acc ++ evs) /\
-    J mx tnt x' d' None (fold_left pev evs t) /\ G mx x' None /\ pw_ts x' = [] /\ pw_clock x' = pw_clock x /\
+    J mx kp tnt x' d' None (fold_left pev evs t) /\ G mx x' None /\ pw_ts x' = [] /\ pw_clock x' = pw_clock x /\
     (forall ts w, In (ts, w) (sd_suspend d') -> pw_clock x < ts) /\
     (forall ts w, In (ts, w) (sd_sys_suspend d') -> pw_clock x < ts) /\
-    psi x' d' <= psi x d.
+    psi x' d' <= psi x d /\ (psi x' d' = psi x d -> ipot mx kp x' = ipot mx kp x).
 Proof.
   intros HJ Hq HG Hts. rewrite cready_eq.
-  destruct (csusp_J (S (length (sd_suspend d))) tnt x d acc t HJ Hq HG Hts) as (x1 & d1 & e1 & E1 & HJ1 & HG1 & Hts1 & Ec1 & F1 & P1).
+  destruct (csusp_J (S (length (sd_suspend d))) tnt x d acc t HJ Hq HG Hts) as (x1 & d1 & e1 & E1 & HJ1 & HG1 & Hts1 & Ec1 & F1 & P1 & I1).
   rewrite E1.
   destruct (csys_J (S (length (sd_sys_suspend d1))) tnt x1 d1 (acc ++ e1) (fold_left pev e1 t) HJ1 (quiet_off_fold _ _ Hq) HG1 Hts1)
-    as (x2 & d2 & e2 & E2 & HJ2 & HG2 & Hts2 & Ec2 & Esu & F2 & P2).
+    as (x2 & d2 & e2 & E2 & HJ2 & HG2 & Hts2 & Ec2 & Esu & F2 & P2 & I2).
   rewrite E2. exists x2, d2, (e1 ++ e2). rewrite app_assoc, fold_pev_app. split; [reflexivity|].
-  split; [exact HJ2|]. split; [exact HG2|]. split; [exact Hts2|]. split; [congruence|]. split; [|split].
+  split; [exact HJ2|]. split; [exact HG2|]. split; [exact Hts2|]. split; [congruence|]. split; [|split; [|split]].
   - rewrite Esu. apply F1. lia.
   - intros ts w Hin. rewrite <- Ec1. apply (F2 ltac:(lia) ts w Hin).
   - lia.
+  - intro E. rewrite I2 by lia. exact I1.
 Qed.
 
 (** * a cancelled worker is dropped *)
-Lemma Jc_uncancel_frame tnt cc x d h t w : Jc mx tnt cc x d h t -> Jc mx tnt cc (k_uncancel x w) d h t.
+Lemma Jc_uncancel_frame tnt cc x d h t w : Jc mx kp tnt cc x d h t -> Jc mx kp tnt cc (k_uncancel x w) d h t.
 Proof.
   intros [HQ HL HP HS HT HR HW]. unfold k_uncancel. constructor; autorewrite with pw; try assumption.
   destruct HP as [P1 P2 P3 P4 P5 P6 P7 P8 P9 P10 P11 P12]. constructor; autorewrite with pw; assumption.
 Qed.
 
 Lemma Jc_cc_shrink tnt cc x d h t w k :
-  Jc mx tnt cc x d h t -> get_worker x w = Some k -> live k = false -> Jc mx tnt (remove_nat w cc) x d h t.
+  Jc mx kp tnt cc x d h t -> get_worker x w = Some k -> live k = false -> Jc mx kp tnt (remove_nat w cc) x d h t.
 Proof.
   intros [HQ HL HP HS HT HR HW] Hk Hl. constructor; try assumption.
   destruct HT as [Hlen Hq Hta Hhold Hinj Hmode Htb Hte Ht3 Htf Hrtnd Hrt Hrts Hrt3 Hcc Hc0 Hctb Hsuf Hfin Hccnd Hccb]. constructor; try assumption.
@@ -182,25 +221,25 @@ Proof.
 Qed.
 
 Lemma J_drop tnt x d w t k :
-  J mx tnt x d (Some w) t -> quiet_off t -> get_worker x w = Some k -> live k = true -> In w (pw_cancel_cos x) ->
+  J mx kp tnt x d (Some w) t -> quiet_off t -> get_worker x w = Some k -> live k = true -> In w (pw_cancel_cos x) ->
   exists x3, k_change (k_uncancel x w) w Cancelled = (x3, [EL 0 w (CbChanged Cancelled) (k_st k)]) /\
-    J mx tnt x3 (d_gone d w) None (pev t (EL 0 w (CbChanged Cancelled) (k_st k))) /\ G mx x3 None /\
+    J mx kp tnt x3 (d_gone d w) None (pev t (EL 0 w (CbChanged Cancelled) (k_st k))) /\ G mx x3 None /\
     pw_ts x3 = pw_ts x /\ pw_clock x3 = pw_clock x /\
     rho x3 <= rho x /\ S (length (pw_cancel_cos x3)) = length (pw_cancel_cos x).
 Proof.
   intros HJ Hq Hk Hl Hin.
   pose proof (Jc_uncancel_frame tnt _ x d (Some w) t w HJ) as HJu.
   assert (get_worker (k_uncancel x w) w = Some k) as Hku by exact Hk.
-  destruct (Jc_k_change mx tnt _ (k_uncancel x w) d w t k Cancelled HJu Hq Hku Hl) as (x3 & E & HJ3 & Hm & Hk3 & HGa & _ & _).
+  destruct (Jc_k_change mx kp tnt _ (k_uncancel x w) d w t k Cancelled HJu Hq Hku Hl) as (x3 & E & HJ3 & Hm & Hk3 & HGa & _ & _).
   { intros _. destruct (k_task k) as [[i rest]|] eqn:Et; [right | left; reflexivity].
-    exists i, rest. split; [reflexivity|]. eapply (jt_tf _ _ _ _ _ _ _ _ (j_t _ _ _ _ _ _ _ HJ)); eassumption. }
+    exists i, rest. split; [reflexivity|]. eapply (jt_tf _ _ _ _ _ _ _ _ (j_t _ _ _ _ _ _ _ _ HJ)); eassumption. }
   exists x3. split; [exact E|]. destruct Hm as [M1 M2 M3 M4 M5 M6].
-  assert (J mx tnt x3 d (Some w) (pev t (EL 0 w (CbChanged Cancelled) (k_st k)))) as HJ3'.
+  assert (J mx kp tnt x3 d (Some w) (pev t (EL 0 w (CbChanged Cancelled) (k_st k)))) as HJ3'.
   { unfold J. rewrite M1. unfold k_uncancel at 1. autorewrite with pw.
     eapply Jc_cc_shrink; [exact HJ3 | exact Hk3 | reflexivity]. }
-  split; [eapply (J_close_dead mx tnt x3 d (d_gone d w) w _ _ HJ3' Hk3); reflexivity|].
+  split; [eapply (J_close_dead mx kp tnt x3 d (d_gone d w) w _ _ HJ3' Hk3); reflexivity|].
   split; [apply HGa; reflexivity|]. split; [rewrite M2; reflexivity|]. split; [rewrite M4; reflexivity|].
-  destruct (k_change_rho (k_uncancel x w) w k Cancelled x3 _ (jp_pools _ _ _ (j_p _ _ _ _ _ _ _ HJ)) (jp_cur _ _ _ (j_p _ _ _ _ _ _ _ HJ)) Hku Hl E) as [Hr _].
+  destruct (k_change_rho (k_uncancel x w) w k Cancelled x3 _ (jp_pools _ _ _ _ (j_p _ _ _ _ _ _ _ _ HJ)) (jp_cur _ _ _ _ (j_p _ _ _ _ _ _ _ _ HJ)) Hku Hl E) as [Hr _].
   cbn [terminal creator_grows] in Hr. change (rho (k_uncancel x w)) with (rho x) in Hr. split; [lia|].
   rewrite M1. unfold k_uncancel. autorewrite with pw. apply remove_nat_length, Hin.
 Qed.
@@ -211,31 +250,33 @@ Definition quiescent (x : pw) (d : sdata) : Prop :=
   (forall ts w, In (ts, w) (sd_suspend d) -> pw_clock x < ts) /\
   (forall ts w, In (ts, w) (sd_sys_suspend d) -> pw_clock x < ts).
 
-Definition dsched_ok (tnt : bool) (t : potr) (acc : list ev) (fuel : nat) (psi0 c0 : Z) (res : pw * sdata * pass_res * list ev) : Prop :=
+Definition dsched_ok (tnt : bool) (t : potr) (acc : list ev) (fuel : nat) (pot0 c0 : Z) (res : pw * sdata * pass_res * list ev) : Prop :=
   let '(x', d', r, acc') := res in
   exists evs, acc' = acc ++ evs /\
     match r with
-    | PassOk l _ => J mx tnt x' d' None (fold_left pev evs t) /\ G mx x' None /\ pw_ts x' = [] /\ 0 <= l /\ (0 < l -> quiescent x' d') /\
+    | PassOk l _ => J mx kp tnt x' d' None (fold_left pev evs t) /\ G mx x' None /\ pw_ts x' = [] /\ 0 <= l /\ (0 < l -> quiescent x' d') /\
                     c0 <= pw_clock x'
-    | PassErr => False
+    | PassErr => pw_spin x' = true /\ ~ low kp x' /\ exists ws, JW ws (fold_left pev evs t) tnt
     | PassUnwound => False
-    | PassDiverged => J mx tnt x' d' None (fold_left pev evs t) /\ pw_ts x' = [] /\ Z.of_nat fuel <= psi0
+    | PassDiverged => J mx kp tnt x' d' None (fold_left pev evs t) /\ pw_ts x' = [] /\ c0 <= pw_clock x' /\
+                      (low kp x' -> Z.of_nat fuel <= pot0)
     end.
 
-Lemma dsched_ok_chain tnt t acc e fuel psi0 c0 res :
-  dsched_ok tnt (fold_left pev e t) (acc ++ e) fuel psi0 c0 res -> dsched_ok tnt t acc fuel psi0 c0 res.
+Lemma dsched_ok_chain tnt t acc e fuel pot0 c0 res :
+  dsched_ok tnt (fold_left pev e t) (acc ++ e) fuel pot0 c0 res -> dsched_ok tnt t acc fuel pot0 c0 res.
 Proof.
   destruct res as [[[x' d'] r] acc']. cbn [dsched_ok]. intros (evs & -> & H). exists (e ++ evs).
   rewrite app_assoc, fold_pev_app. split; [reflexivity | exact H].
 Qed.
 
-Lemma dsched_ok_step tnt t acc f psi1 psi0 c1 c0 res :
-  dsched_ok tnt t acc f psi1 c1 res -> psi1 + 1 <= psi0 -> c0 <= c1 -> dsched_ok tnt t acc (S f) psi0 c0 res.
+Lemma dsched_ok_step tnt t acc f pot1 pot0 c1 c0 res :
+  dsched_ok tnt t acc f pot1 c1 res -> (kp <= 0 \/ c1 < U64MAX -> pot1 + 1 <= pot0) -> c0 <= c1 -> dsched_ok tnt t acc (S f) pot0 c0 res.
 Proof.
   destruct res as [[[x' d'] r] acc']. cbn [dsched_ok]. intros (evs & -> & H) Hle Hc. exists evs. split; [reflexivity|].
   destruct r; try exact H.
   - destruct H as (H1 & H2 & H3 & H4 & H5 & H6). repeat (split; [assumption|]). lia.
-  - destruct H as (H1 & H2 & H3). split; [exact H1|]. split; [exact H2|]. lia.
+  - destruct H as (H1 & H2 & H3 & H4). split; [exact H1|]. split; [exact H2|]. split; [lia|]. intro Hlow. specialize (H4 Hlow).
+    assert (kp <= 0 \/ c1 < U64MAX) as Hl1 by (unfold low in Hlow; lia). specialize (Hle Hl1). lia.
 Qed.
 
 Lemma psi_nonneg x d : 0 <= psi x d.
@@ -251,94 +292,137 @@ Proof.
   destruct Hc as [(ts & -> & Hb)|(y & n & ts & -> & Hb)]; cbn [pmode]; eauto.
 Qed.
 
+Lemma pot_nonneg tnt x d h t : J mx kp tnt x d h t -> 0 <= pot x d.
+Proof.
+  intro HJ. pose proof (ipot_bounds tnt x d h t HJ). pose proof (psi_nonneg x d). unfold pot. destruct (kp <=? 0); [lia | nia].
+Qed.
+
 Lemma dsched_J : forall fuel tnt x d deadline results acc t,
-  J mx tnt x d None t -> quiet_off t -> G mx x None -> pw_ts x = [] ->
-  dsched_ok tnt t acc fuel (psi x d) (pw_clock x) (dsched fuel x d deadline results acc).
+  J mx kp tnt x d None t -> quiet_off t -> G mx x None -> pw_ts x = [] ->
+  dsched_ok tnt t acc fuel (pot x d) (pw_clock x) (dsched fuel x d deadline results acc).
 Proof.
   induction fuel as [|f IH]; intros tnt x d deadline results acc t HJ Hq HG Hts.
-  - cbn [dsched do_schedule dsched_ok]. exists []. rewrite app_nil_r. cbn [fold_left]. pose proof (psi_nonneg x d). auto.
+  - cbn [dsched do_schedule dsched_ok]. exists []. rewrite app_nil_r. cbn [fold_left]. pose proof (pot_nonneg tnt x d None t HJ).
+    split; [reflexivity|]. split; [exact HJ|]. split; [exact Hts|]. split; [lia|]. intros _. cbn. lia.
   - rewrite dsched_S. cbv zeta. destruct (sat_sub deadline (pw_clock x) =? 0) eqn:Elft.
     { cbn [dsched_ok]. exists []. rewrite app_nil_r. cbn [fold_left]. split; [reflexivity|].
       split; [exact HJ|]. split; [exact HG|]. split; [exact Hts|]. split; [lia|]. split; [|lia]. intro H. exfalso. lia. }
-    destruct (cready_J tnt x d acc t HJ Hq HG Hts) as (x1 & d1 & e1 & Ecr & HJ1 & HG1 & Hts1 & Ecl1 & F1 & F2 & P1).
+    destruct (cready_J tnt x d acc t HJ Hq HG Hts) as (x1 & d1 & e1 & Ecr & HJ1 & HG1 & Hts1 & Ecl1 & F1 & F2 & P1 & I1).
     rewrite Ecr. apply (dsched_ok_chain tnt t acc e1). set (t1 := fold_left pev e1 t) in *.
     assert (quiet_off t1) as Hq1 by (apply quiet_off_fold, Hq).
-    unfold k_pop. pose proof (jq_c _ _ (j_q _ _ _ _ _ _ _ HJ1)) as HQc.
+    pose proof (ipot_bounds tnt x d None t HJ) as Hib. pose proof (ipot_bounds tnt x1 d1 None t1 HJ1) as Hib1.
+    assert (pot x1 d1 <= pot x d) as Hpot1.
+    { unfold pot. apply pot_le; solve [lia | exact I1]. }
+    unfold k_pop. pose proof (jq_c _ _ (j_q _ _ _ _ _ _ _ _ HJ1)) as HQc.
     destruct (lpop (pw_cq x1) 0 0) as [q r] eqn:Epop.
     destruct (Q1_lpop_cases _ _ _ _ HQc Epop) as [HQ' [(z & -> & Hcnt)|(-> & Hnil & Hnil')]].
     + (* a worker is popped *)
-      destruct (J_open_cq mx tnt x1 d1 t1 q z HJ1 HQ' Hcnt) as (w & k & -> & Hk & Hl & Hp & Hres & HJ2).
+      destruct (J_open_cq mx kp tnt x1 d1 t1 q z HJ1 HQ' Hcnt) as (w & k & -> & Hk & Hl & Hp & Hres & HJ2).
       rewrite Nat2Z.id. set (x2 := set_cq x1 q) in *.
       assert (get_worker x2 w = Some k) as Hk2 by exact Hk.
       assert (psi x2 d1 = psi x1 d1) as Ep2 by reflexivity.
+      assert (ipot mx kp x2 = ipot mx kp x1) as Ei2 by reflexivity.
       unfold k_cancelled. destruct (mem_nat w (pw_cancel_cos x2)) eqn:Ecc.
       * (* dropped *)
         apply mem_nat_In in Ecc.
         destruct (J_drop tnt x2 d1 w t1 k HJ2 Hq1 Hk2 Hl Ecc) as (x3 & Ekc & HJ3 & HG3 & Hts3 & Ecl3 & Hr3 & Hc3).
         rewrite Ekc. apply (dsched_ok_chain tnt t1 (acc ++ e1) [EL 0 w (CbChanged Cancelled) (k_st k)]).
+        pose proof (ipot_bounds _ _ _ _ _ HJ3) as Hib3.
         eapply dsched_ok_step; [apply IH| |].
         -- exact HJ3.
         -- unfold quiet_off. cbn [fold_left]. rewrite po_pools_pev. exact Hq1.
         -- exact HG3.
         -- rewrite Hts3. exact Hts1.
-        -- unfold psi in *. unfold d_gone. cbn [sd_sys_suspend]. lia.
+        -- intros _. etransitivity; [|exact Hpot1]. unfold pot. apply pot_dec; try lia. left.
+           unfold psi in *. unfold d_gone. cbn [sd_sys_suspend]. lia.
         -- rewrite Ecl3. change (pw_clock x2) with (pw_clock x1). lia.
       * (* resumed *)
         apply mem_nat_false in Ecc.
         assert (parked_ok x2 w) as Hpk.
         { destruct Hp as (Hd & Ht & m & Hm & Hb). exists k, m. repeat (split; [assumption|]). exact Hb. }
-        destruct (k_resume_J mx tnt x2 d1 w t1 HJ2 Hq1 ltac:(apply G_None_any, G_set_cq, HG1) Hpk Ecc Hts1)
-          as (x3 & r & e & Ekr & (HJ3 & HG3 & Hts3 & Ecc3 & (k' & Hk' & -> & Hpl) & Hr3 & Hc3)).
+        destruct (k_resume_J mx kp tnt x2 d1 w t1 HJ2 Hq1 ltac:(apply G_None_any, G_set_cq, HG1) Hpk Ecc Hts1)
+          as (x3 & r & e & Ekr & [(HJ3 & HG3 & Hts3 & Ecc3 & (k' & Hk' & -> & Hpl) & Hr3 & Hc3)|(-> & Hspin & Hhigh & Hjw)]).
+        2:{ (* the worker naps for ever at the end of time *)
+            rewrite Ekr. apply (dsched_ok_chain tnt t1 (acc ++ e1) e). cbn [dsched_ok]. exists []. rewrite app_nil_r. cbn [fold_left].
+            split; [reflexivity|]. split; [exact Hspin|]. split; [exact Hhigh | exact Hjw]. }
         assert (pw_clock x <= pw_clock x3) as Hc3' by (change (pw_clock x2) with (pw_clock x1) in Hc3; lia).
         rewrite Ekr. apply (dsched_ok_chain tnt t1 (acc ++ e1) e).
         assert (quiet_off (fold_left pev e t1)) as Hq3 by (apply quiet_off_fold, Hq1).
-        assert (rho x3 + 1 + sys_cost (ROk (k_st k')) + 2 * Z.of_nat (length (sd_sys_suspend d1)) + 2 * Z.of_nat (length (pw_cancel_cos x3)) <= psi x d) as Hpsi3.
-        { unfold psi in *. rewrite Ecc3. lia. }
-        destruct Hpl as [(Hl' & v & Est)|(Hl' & Hd' & Ht' & i & rest & Htask & Hc)].
+        assert (low kp x3 ->
+                (rho x3 + 1 + sys_cost (ROk (k_st k')) + 2 * Z.of_nat (length (sd_sys_suspend d1)) + 2 * Z.of_nat (length (pw_cancel_cos x3)) <= psi x1 d1) \/
+                (0 < kp /\ sys_cost (ROk (k_st k')) = 0 /\
+                 rho x3 + 2 * Z.of_nat (length (sd_sys_suspend d1)) + 2 * Z.of_nat (length (pw_cancel_cos x3)) <= psi x1 d1 /\
+                 ipot mx kp x3 + 1 <= ipot mx kp x1)) as Hpsi3.
+        { intro Hlow. destruct (Hr3 Hlow) as [Ha|(Hkpos & Hb1 & Hb2 & Hb3)]; [left | right].
+          - unfold psi in *. rewrite Ecc3. lia.
+          - split; [exact Hkpos|]. split; [exact Hb2|]. unfold psi, idle_dec in *. rewrite Ecc3. split; lia. }
+        destruct Hpl as [(Hl' & v & Est)|[(Hl' & Hd' & Ht' & i & rest & Htask & Hc)|(Hl' & Hd' & Ht' & Htask & Est)]].
         -- (* completed *)
-           rewrite Est in *. eapply dsched_ok_step; [apply IH; [|exact Hq3 | exact HG3 | exact Hts3]| |].
-           ++ eapply (J_close_dead mx tnt x3 d1 d1 w _ _ HJ3 Hk' Hl'); reflexivity.
-           ++ unfold psi in *. cbn [sys_cost] in Hpsi3. lia.
-           ++ exact Hc3'.
+           rewrite Est in *. assert (J mx kp tnt x3 d1 None (fold_left pev e t1)) as HJ4.
+           { eapply (J_close_dead mx kp tnt x3 d1 d1 w _ _ HJ3 Hk' Hl'); reflexivity. }
+           pose proof (ipot_bounds _ _ _ _ _ HJ4) as Hib4.
+           eapply dsched_ok_step; [apply IH; [exact HJ4 | exact Hq3 | exact HG3 | exact Hts3]| |exact Hc3'].
+           intro Hlow. etransitivity; [|exact Hpot1]. unfold pot. apply pot_dec; try lia.
+           destruct (Hpsi3 Hlow) as [Ha|(Hkpos & Hs0 & Hb1 & Hb2)]; [left | right; split; [exact Hkpos|]]; unfold psi in *; cbn [sys_cost] in *; lia.
         -- pose proof (placed_parked k' i rest Hd' Ht' Htask Hc) as Hp'.
            destruct Hc as [(ts & Est & Hb)|(y & n & ts & Est & Hb)]; rewrite Est in *.
            ++ destruct (pw_clock x3 <? ts) eqn:Ects.
-              ** eapply dsched_ok_step; [apply IH; [|exact Hq3 | exact HG3 | exact Hts3]| |].
-                 --- eapply (J_close_susp mx tnt x3 d1 w _ k' 0 ts HJ3 Hk' Est Hp').
-                 --- unfold psi, d_add_susp in *. cbn [sd_sys_suspend sys_cost] in *. lia.
-                 --- exact Hc3'.
-              ** eapply dsched_ok_step; [apply IH; [|exact Hq3 | apply G_push, HG3 | exact Hts3]| |].
-                 --- eapply (J_close_push mx tnt x3 d1 w _ k' HJ3 Hk' Hl' Hp'). right. left. exists 0, ts. split; [exact Est | lia].
-                 --- unfold psi in *. change (rho (k_push 0 x3 w)) with (rho x3). change (pw_cancel_cos (k_push 0 x3 w)) with (pw_cancel_cos x3).
-                     cbn [sys_cost] in Hpsi3. lia.
-                 --- exact Hc3'.
-           ++ eapply dsched_ok_step; [apply IH; [|exact Hq3 | exact HG3 | exact Hts3]| |].
-              ** eapply (J_close_sys mx tnt x3 d1 w _ k' y n ts HJ3 Hk' Est Hp').
-              ** unfold psi, d_add_sys in *. cbn [sd_sys_suspend sys_cost] in *. rewrite app_length. cbn [length]. lia.
-              ** exact Hc3'.
+              ** assert (J mx kp tnt x3 (d_add_susp d1 (ts, w)) None (fold_left pev e t1)) as HJ4
+                   by (eapply (J_close_susp mx kp tnt x3 d1 w _ k' 0 ts HJ3 Hk' Est Hp')).
+                 pose proof (ipot_bounds _ _ _ _ _ HJ4) as Hib4.
+                 eapply dsched_ok_step; [apply IH; [exact HJ4 | exact Hq3 | exact HG3 | exact Hts3]| |exact Hc3'].
+                 intro Hlow. etransitivity; [|exact Hpot1]. unfold pot. apply pot_dec; try lia.
+                 destruct (Hpsi3 Hlow) as [Ha|(Hkpos & Hs0 & Hb1 & Hb2)]; [left | right; split; [exact Hkpos|]]; unfold psi, d_add_susp in *; cbn [sd_sys_suspend sys_cost] in *; lia.
+              ** assert (J mx kp tnt (k_push 0 x3 w) d1 None (fold_left pev e t1)) as HJ4.
+                 { eapply (J_close_push mx kp tnt x3 d1 w _ k' HJ3 Hk' Hl' Hp'). right. left. exists 0, ts. split; [exact Est | lia]. }
+                 pose proof (ipot_bounds _ _ _ _ _ HJ4) as Hib4. rewrite ipot_push in Hib4.
+                 eapply dsched_ok_step; [apply IH; [exact HJ4 | exact Hq3 | apply G_push, HG3 | exact Hts3]| |exact Hc3'].
+                 intro Hlow. etransitivity; [|exact Hpot1]. unfold pot. rewrite ipot_push. apply pot_dec; try lia.
+                 change (psi (k_push 0 x3 w) d1) with (psi x3 d1).
+                 destruct (Hpsi3 Hlow) as [Ha|(Hkpos & Hs0 & Hb1 & Hb2)]; [left | right; split; [exact Hkpos|]]; unfold psi in *; cbn [sys_cost] in *; lia.
+           ++ assert (J mx kp tnt x3 (d_add_sys d1 w ts) None (fold_left pev e t1)) as HJ4
+                by (eapply (J_close_sys mx kp tnt x3 d1 w _ k' y n ts HJ3 Hk' Est Hp')).
+              pose proof (ipot_bounds _ _ _ _ _ HJ4) as Hib4.
+              eapply dsched_ok_step; [apply IH; [exact HJ4 | exact Hq3 | exact HG3 | exact Hts3]| |exact Hc3'].
+              intro Hlow. etransitivity; [|exact Hpot1]. unfold pot. apply pot_dec; try lia.
+              destruct (Hpsi3 Hlow) as [Ha|(Hkpos & Hs0 & Hb1 & Hb2)]; [left | exfalso; cbn [sys_cost] in Hs0; lia].
+              unfold psi, d_add_sys in *. cbn [sd_sys_suspend sys_cost] in *. rewrite app_length. cbn [length]. lia.
+        -- (* an idle worker yielded: back into the queue at once *)
+           rewrite Est in *.
+           assert (parked_facts k') as Hp'.
+           { split; [exact Hd'|]. split; [exact Ht'|]. exists MRun. rewrite Est, Htask. cbn [pmode]. auto. }
+           pose proof (jp_keep _ _ _ _ (j_p _ _ _ _ _ _ _ _ HJ3)) as (_ & Hc0 & _).
+           assert (pw_clock x3 <? 0 = false) as -> by lia.
+           assert (J mx kp tnt (k_push 0 x3 w) d1 None (fold_left pev e t1)) as HJ4.
+           { eapply (J_close_push mx kp tnt x3 d1 w _ k' HJ3 Hk' Hl' Hp'). right. left. exists 0, 0. split; [exact Est | lia]. }
+           pose proof (ipot_bounds _ _ _ _ _ HJ4) as Hib4. rewrite ipot_push in Hib4.
+           eapply dsched_ok_step; [apply IH; [exact HJ4 | exact Hq3 | apply G_push, HG3 | exact Hts3]| |exact Hc3'].
+           intro Hlow. etransitivity; [|exact Hpot1]. unfold pot. rewrite ipot_push. apply pot_dec; try lia.
+           change (psi (k_push 0 x3 w) d1) with (psi x3 d1).
+           destruct (Hpsi3 Hlow) as [Ha|(Hkpos & Hs0 & Hb1 & Hb2)]; [left | right; split; [exact Hkpos|]]; unfold psi in *; cbn [sys_cost] in *; lia.
     + (* nothing is ready: the pass ends *)
       cbn [dsched_ok]. exists []. rewrite app_nil_r. cbn [fold_left]. split; [reflexivity|].
-      assert (J mx tnt (set_cq x1 q) d1 None t1) as HJ2.
-      { apply (J_reloc mx tnt x1 q d1 d1 None None t1 HJ1 HQ').
-        - rewrite Hnil'. rewrite <- Hnil. apply (j_l _ _ _ _ _ _ _ HJ1).
-        - apply (j_t _ _ _ _ _ _ _ HJ1). }
+      assert (J mx kp tnt (set_cq x1 q) d1 None t1) as HJ2.
+      { apply (J_reloc mx kp tnt x1 q d1 d1 None None t1 HJ1 HQ').
+        - rewrite Hnil'. rewrite <- Hnil. apply (j_l _ _ _ _ _ _ _ _ HJ1).
+        - apply (j_t _ _ _ _ _ _ _ _ HJ1). }
       split; [exact HJ2|]. split; [apply G_set_cq, HG1|]. split; [exact Hts1|].
       unfold sat_sub in *. split; [lia|]. split; [|autorewrite with pw; lia]. intros _. unfold quiescent. autorewrite with pw. rewrite Ecl1. auto.
 Qed.
 
 (** * the whole pass *)
-Definition Jop (tnt : bool) (x : pw) (t : potr) : Prop := J mx tnt x (p_sd (get_pool x 0)) None t /\ pw_ts x = [].
+Definition Jop (tnt : bool) (x : pw) (t : potr) : Prop := J mx kp tnt x (p_sd (get_pool x 0)) None t /\ pw_ts x = [].
 
-Lemma J_set_cur tnt x d h t : J mx tnt x d h t -> J mx tnt (set_cur x 0) d h t.
+Lemma J_set_cur tnt x d h t : J mx kp tnt x d h t -> J mx kp tnt (set_cur x 0) d h t.
 Proof.
   intros [HQ HL HP HS HT HR HW]. constructor; autorewrite with pw; try assumption.
   destruct HP as [P1 P2 P3 P4 P5 P6 P7 P8 P9 P10 P11 P12]. constructor; autorewrite with pw; auto.
 Qed.
 
-Lemma J_with_sd tnt x d h t d' : J mx tnt x d h t -> J mx tnt (upd_pool x 0 (p_with_sd d')) d h t.
+Lemma J_with_sd tnt x d h t d' : J mx kp tnt x d h t -> J mx kp tnt (upd_pool x 0 (p_with_sd d')) d h t.
 Proof.
   intros HJ. pose proof HJ as [HQ HL HP HS HT HR HW].
-  assert (length (pw_pools x) = 1%nat) as Hp by apply (jp_pools _ _ _ HP).
+  assert (length (pw_pools x) = 1%nat) as Hp by apply (jp_pools _ _ _ _ HP).
   assert (get_pool (upd_pool x 0 (p_with_sd d')) 0 = p_with_sd d' (get_pool x 0)) as E by (apply get_pool_upd_pool_same; lia).
   constructor; autorewrite with pw; rewrite ?E; autorewrite with pw; try assumption.
   destruct HP as [P1 P2 P3 P4 P5 P6 P7 P8 P9 P10 P11 P12].
@@ -356,9 +440,11 @@ Proof.
   intros Hnd Hb. rewrite <- (seq_length n 0). apply NoDup_incl_length; [exact Hnd|]. intros v Hv. apply in_seq. specialize (Hb v Hv). lia.
 Qed.
 
-Lemma psi_bound tnt x d t : J mx tnt x d None t -> psi x d < Z.of_nat (pass_fuel_p x).
+Definition pass_base (x : pw) : nat := (S (S (wfuel x)) * S (S (length (pw_workers x) + length (pw_tbody x))))%nat.
+
+Lemma psi_bound tnt x d t : J mx kp tnt x d None t -> psi x d < Z.of_nat (pass_base x).
 Proof.
-  intro HJ. pose proof (rho_bound mx tnt x d None t HJ) as Hr. pose proof (j_l _ _ _ _ _ _ _ HJ) as HL. pose proof (j_t _ _ _ _ _ _ _ HJ) as HT.
+  intro HJ. pose proof (rho_bound mx kp tnt x d None t HJ) as Hr. pose proof (j_l _ _ _ _ _ _ _ _ HJ) as HL. pose proof (j_t _ _ _ _ _ _ _ _ HJ) as HT.
   assert (length (pw_cancel_cos x) <= length (pw_workers x))%nat as Hc.
   { apply NoDup_bounded_length; [apply (jt_ccnd _ _ _ _ _ _ _ _ HT) | apply (jt_ccb _ _ _ _ _ _ _ _ HT)]. }
   assert (length (sd_sys_suspend d) <= length (pw_workers x))%nat as Hs.
@@ -368,11 +454,25 @@ Proof.
         destruct (JL_in_sys _ _ _ _ _ _ HL Hin) as (k & y & n & _ & _ & _ & _ & H1 & _). unfold hpc in H1. lia.
       + rewrite (proj1 (count_occ_not_In Nat.eq_dec _ _) Hnin). lia.
     - intros v Hv. apply in_map_iff in Hv as ([ts v'] & Ev & Hin). cbn [snd] in Ev. subst v'. apply (jl_sys _ _ _ _ _ HL _ _ Hin). }
-  unfold psi, pass_fuel_p, wfuel. fold (btotal (pw_tbody x)).
+  unfold psi, pass_base, wfuel. fold (btotal (pw_tbody x)). set (KR := keep_rounds x).
   set (B := btotal (pw_tbody x)) in *. set (W := length (pw_workers x)) in *. set (T := length (pw_tbody x)) in *.
   assert (B = 0 \/ 1 <= T)%nat as HBT.
   { unfold B, T, btotal. destruct (pw_tbody x); [left; reflexivity | right; cbn [length]; lia]. }
   nia.
+Qed.
+
+Lemma pot_bound tnt x d t : J mx kp tnt x d None t -> pot x d < Z.of_nat (pass_fuel_p x).
+Proof.
+  intro HJ. pose proof (psi_bound tnt x d t HJ) as Hb. pose proof (keep_rounds_kcap mx kp tnt x d None t HJ) as Ek.
+  pose proof (ipot_bounds tnt x d None t HJ) as Hi. pose proof (psi_nonneg x d) as Hp0.
+  pose proof (j_p _ _ _ _ _ _ _ _ HJ) as HP. pose proof (jp_mx _ _ _ _ HP) as Hmx. pose proof (kcap_nonneg kp) as Hk0.
+  unfold pass_fuel_p. fold (pass_base x). rewrite (jp_cur _ _ _ _ HP), (jp_max _ _ _ _ HP). unfold pot.
+  destruct (kp <=? 0) eqn:E.
+  - unfold kcap in Ek. rewrite E in Ek. destruct (keep_rounds x); [exact Hb | lia].
+  - unfold kcap in Ek, Hk0. rewrite E in Ek, Hk0. destruct (keep_rounds x) as [|n] eqn:Ekr; [lia|].
+    set (kr := S n) in *. unfold ibound, kcap in *. rewrite E in *. rewrite <- Ek in *.
+    rewrite Nat2Z.inj_mul, Nat2Z.inj_add, Nat2Z.inj_add, Nat2Z.inj_mul, Nat2Z.inj_succ. rewrite Z2Nat.id by lia.
+    replace (Z.max 1 mx) with mx by lia. change (Z.of_nat 3) with 3. nia.
 Qed.
 
 Definition ppass_ok (tnt : bool) (x : pw) (t : potr) (res : pw * pres * list ev) : Prop :=
@@ -381,28 +481,34 @@ Definition ppass_ok (tnt : bool) (x : pw) (t : potr) (res : pw * pres * list ev)
   | PLeft l => Jop tnt x' (fold_left pev e t) /\ G mx x' None /\ 0 <= l /\ (0 < l -> quiescent x' (p_sd (get_pool x' 0))) /\
                pw_clock x <= pw_clock x'
   | PErrStopped => x' = x /\ e = [] /\ p_state (get_pool x 0) = PStopped
-  | PDiverged | PErr | PUnwound => False
+  | PDiverged => ~ low kp x' /\ exists ws, JW ws (fold_left pev e t) tnt   (* only at the end of time *)
+  | PErr | PUnwound => False
   end.
 
 Lemma ppass_tail_J tnt x0 x1 t deadline :
-  J mx tnt x1 (p_sd (get_pool x1 0)) None t -> quiet_off t -> G mx x1 None -> pw_ts x1 = [] -> pw_clock x0 <= pw_clock x1 ->
+  J mx kp tnt x1 (p_sd (get_pool x1 0)) None t -> quiet_off t -> G mx x1 None -> pw_ts x1 = [] -> pw_clock x0 <= pw_clock x1 ->
   ppass_ok tnt x0 t (let '(x2, d2, r, e) := dsched (pass_fuel_p x1) x1 (p_sd (get_pool x1 0)) deadline [] [] in ppass_tail x2 d2 r e).
 Proof.
   intros HJ1 Hq HG1 Hts1 Hc01.
   pose proof (dsched_J (pass_fuel_p x1) tnt x1 (p_sd (get_pool x1 0)) deadline [] [] t HJ1 Hq HG1 Hts1) as Hok.
-  pose proof (psi_bound tnt x1 _ t HJ1) as Hpb.
+  pose proof (pot_bound tnt x1 _ t HJ1) as Hpb.
   destruct (dsched (pass_fuel_p x1) x1 (p_sd (get_pool x1 0)) deadline [] []) as [[[x2 d2] r] e].
   cbn [dsched_ok] in Hok. destruct Hok as (evs & Ee & Hok). cbn [app] in Ee. subst e. unfold ppass_tail. cbv zeta.
   destruct r as [l rs| | |]; try contradiction.
+  2:{ (* a worker naps for ever *)
+      destruct Hok as (Hspin & Hhigh & Hjw). autorewrite with pw. rewrite Hspin. cbn [ppass_ok]. autorewrite with pw. auto. }
   - destruct Hok as (HJ2 & HG2 & Hts2 & Hl & Hqs & Hc2).
     pose proof (J_with_sd tnt x2 d2 None _ d2 HJ2) as HJ3.
-    assert (length (pw_pools x2) = 1%nat) as Hp2 by apply (jp_pools _ _ _ (j_p _ _ _ _ _ _ _ HJ2)).
+    assert (length (pw_pools x2) = 1%nat) as Hp2 by apply (jp_pools _ _ _ _ (j_p _ _ _ _ _ _ _ _ HJ2)).
     assert (get_pool (upd_pool x2 0 (p_with_sd d2)) 0 = p_with_sd d2 (get_pool x2 0)) as Eq by (apply get_pool_upd_pool_same; lia).
-    rewrite (jp_spin _ _ _ (j_p _ _ _ _ _ _ _ HJ3)). cbn [ppass_ok]. unfold Jop. rewrite Eq. autorewrite with pw.
+    rewrite (jp_spin _ _ _ _ (j_p _ _ _ _ _ _ _ _ HJ3)). cbn [ppass_ok]. unfold Jop. rewrite Eq. autorewrite with pw.
     split; [split; [exact HJ3 | exact Hts2]|]. split.
     + unfold G in *. autorewrite with pw. rewrite Eq. autorewrite with pw. exact HG2.
     + split; [exact Hl|]. split; [|lia]. intro Hpos. destruct (Hqs Hpos) as (Q1' & Q2 & Q3). split; [exact Q1' | split; assumption].
-  - destruct Hok as (_ & _ & Hf). lia.
+  - destruct Hok as (HJ2 & Hts2 & Hc2 & Hf).
+    assert (~ low kp x2) as Hhigh by (intro Hlow; specialize (Hf Hlow); lia).
+    autorewrite with pw. rewrite (jp_spin _ _ _ _ (j_p _ _ _ _ _ _ _ _ HJ2)). cbn [ppass_ok]. autorewrite with pw.
+    split; [exact Hhigh|]. exists (pw_workers x2). apply (j_w _ _ _ _ _ _ _ _ HJ2).
 Qed.
 
 Lemma ppass_J tnt x t deadline :
@@ -410,18 +516,18 @@ Lemma ppass_J tnt x t deadline :
 Proof.
   intros [HJ Hts] Hq. rewrite ppass_eq.
   set (x1 := set_cur (try_grow x 0) 0).
-  destruct (J_try_grow mx tnt x _ None t HJ Hq) as [HJg HGg].
-  assert (J mx tnt x1 (p_sd (get_pool x1 0)) None t) as HJ1.
-  { unfold x1. autorewrite with pw. rewrite (p_sd_try_grow x (jp_pools _ _ _ (j_p _ _ _ _ _ _ _ HJ))). apply J_set_cur, HJg. }
+  destruct (J_try_grow mx kp tnt x _ None t HJ Hq) as [HJg HGg].
+  assert (J mx kp tnt x1 (p_sd (get_pool x1 0)) None t) as HJ1.
+  { unfold x1. autorewrite with pw. rewrite (p_sd_try_grow x (jp_pools _ _ _ _ (j_p _ _ _ _ _ _ _ _ HJ))). apply J_set_cur, HJg. }
   assert (G mx x1 None) as HG1.
   { unfold x1. eapply (G_frame mx (try_grow x 0)); [reflexivity | reflexivity | reflexivity | exact HGg]. }
   assert (pw_ts x1 = []) as Hts1.
-  { unfold x1. autorewrite with pw. rewrite (sm_ts _ _ (try_grow_misc x (jp_pools _ _ _ (j_p _ _ _ _ _ _ _ HJ)))). exact Hts. }
+  { unfold x1. autorewrite with pw. rewrite (sm_ts _ _ (try_grow_misc x (jp_pools _ _ _ _ (j_p _ _ _ _ _ _ _ _ HJ)))). exact Hts. }
   destruct (p_state (get_pool x 0)) eqn:Est.
   - apply ppass_tail_J; try assumption. unfold x1. autorewrite with pw.
-    rewrite (sm_clock _ _ (try_grow_misc x (jp_pools _ _ _ (j_p _ _ _ _ _ _ _ HJ)))). lia.
+    rewrite (sm_clock _ _ (try_grow_misc x (jp_pools _ _ _ _ (j_p _ _ _ _ _ _ _ _ HJ)))). lia.
   - apply ppass_tail_J; try assumption. unfold x1. autorewrite with pw.
-    rewrite (sm_clock _ _ (try_grow_misc x (jp_pools _ _ _ (j_p _ _ _ _ _ _ _ HJ)))). lia.
+    rewrite (sm_clock _ _ (try_grow_misc x (jp_pools _ _ _ _ (j_p _ _ _ _ _ _ _ _ HJ)))). lia.
   - cbn [ppass_ok]. auto.
 Qed.
 
